@@ -73,7 +73,8 @@ def verdict (_p : Profile) (S : Layout) (op : String) (a : List String) (ans : S
       | "t_sqrt", some r =>
         -- C13: r ≥ 0, (r−4)² ≤ X ≤ (r+4)² with X = x·2^(2fD−fS) as a rational comparison, exact at 0 and 1
         let lo := if r - 4 < 0 then 0 else r - 4
-        if r < 0 then some "negative root"
+        if x < 0 then some "Ok for a negative operand"          -- C12: mathematically undefined requests yield Err
+        else if r < 0 then some "negative root"
         else if x = 0 && r ≠ 0 then some "sqrt(0) not exact"
         else if x = 2 ^ S.f && r ≠ 2 ^ D.f then some "sqrt(1) not exact"
         else if !(decide (lo * lo * 2 ^ S.f ≤ x * 2 ^ (2 * D.f)) && decide (x * 2 ^ (2 * D.f) ≤ (r + 4) * (r + 4) * 2 ^ S.f)) then
@@ -82,8 +83,10 @@ def verdict (_p : Profile) (S : Layout) (op : String) (a : List String) (ans : S
       | "t_sqrt", none =>
         -- Err only for negative operands or positive operands whose reciprocal is not representable
         if isErr && x ≥ 0 && decide (inRange D (divSpec D.f (2 ^ D.f) (x * 2 ^ (D.f - S.f)))) && x ≠ 0 then some "unexpected Err" else none
+      | "t_ln", some _ => if x ≤ 0 then some "Ok for a non-positive operand" else none
       | "t_log2", some r =>
-        if x * 2 ^ (D.f - S.f) ≤ 2 ^ D.f && r > 0 then some "log2(x ≤ 1) > 0"
+        if x ≤ 0 then some "Ok for a non-positive operand"     -- C12
+        else if x * 2 ^ (D.f - S.f) ≤ 2 ^ D.f && r > 0 then some "log2(x ≤ 1) > 0"
         else if x * 2 ^ (D.f - S.f) ≥ 2 ^ D.f && r < 0 then some "log2(x ≥ 1) < 0"
         else if isPow2 x && r ≠ ((bitLen x.toNat : Int) - 1 - S.f) * 2 ^ D.f then some "log2 of a power of two not exact"
         else none
@@ -95,6 +98,7 @@ def verdict (_p : Profile) (S : Layout) (op : String) (a : List String) (ans : S
           match y.toInt? with
           | some y =>
             if x = 0 && r ≠ 0 then some "0^y ≠ 0"
+            else if x < 0 && y % 2 ^ S.f ≠ 0 then some "Ok for a fractional power of a negative base"   -- C12
             else if x ≠ 0 && y = 0 && r ≠ 2 ^ D.f then some "x^0 ≠ 1"
             else if x ≠ 0 && y = 2 ^ S.f && r ≠ x * 2 ^ (D.f - S.f) then some "x^1 ≠ x"
             else none
